@@ -4,7 +4,10 @@ import vlib
 from checks.c09 import vlib_corpus
 from graphgen import *
 
-SCOPES = [("default", {}, None, None), ("all", {"all_schemas": True}, None, None), ("only", {}, ["op0"], None), ("exclude", {}, None, ["op1"])]
+# the last two DESELECT the operation whose path item holds the reference (op0 on /r) and keep the other one: whatever only /r
+# reaches — through the operation or through its path item — must then NOT be emitted (converse half of the property)
+SCOPES = [("default", {}, None, None), ("all", {"all_schemas": True}, None, None), ("only", {}, ["op0"], None), ("exclude", {}, None, ["op1"]),
+          ("only_other", {}, ["op1"], None), ("exclude_owner", {}, None, ["op0"])]
 
 
 def prepare(case):
@@ -18,7 +21,7 @@ def prepare(case):
         assert names and all(e[0] in names and e[2] in names and e[1] in KINDS + KINDS_EXTRA for e in d["edges"]) and all(x in names for x in d.get("roots") or []) and d.get("roots")
         assert d.get("mode", "client-mod") in ("client-mod", "server-mod") and not has_allof_cycle(names, [tuple(e) for e in d["edges"]])
         spec = graph_spec(d["names"], [tuple(e) for e in d["edges"]], d.get("roots"))
-    assert d.get("scope", "default") in ("default", "all", "only", "exclude")
+    assert d.get("scope", "default") in [x[0] for x in SCOPES]
     sc = dict((s[0], s) for s in SCOPES)[d.get("scope", "default")]
     base = {"judges": ["closed", "orphans"], "spec": spec, "cfg": sc[1], "only": sc[2], "exclude": sc[3], "mode": d.get("mode", "client-mod")}
     base["schemas"] = spec["components"]["schemas"]
@@ -119,11 +122,16 @@ def cases(ctx):
     for pos in POSITIONS:
         for tk in TARGET_KINDS:
             scopes = SCOPES if not ctx.quick else [SCOPES[0]] + r.sample(SCOPES[1:], 1)
+            if ctx.quick and pos == "pathparam" and tk in ("object", "strenum"):
+                scopes = SCOPES          # the path item's own parameters under a selection that drops all its operations
             for sc in scopes:
                 for op in ("graph.emit", "graph.analyze"):
                     if op == "graph.analyze" and sc[0] == "all":
                         continue
                     out.append({"op": op, "in": {"position": pos, "tkind": tk, "scope": sc[0]}})
+    # a schema whose conversion fails (skipped with a warning) but which other types mention
+    for pos in ("property", "item", "respbody", "reqbody", "oneof"):
+        out.append({"op": "graph.emit", "in": {"position": pos, "tkind": "extunion", "scope": "default"}})
     # status class x media category of the response / request body that carries the only reference to Tgt
     from graphgen import MEDIA_POSITIONS
     mp = MEDIA_POSITIONS if not ctx.quick else r.sample(MEDIA_POSITIONS, 40)
